@@ -1243,3 +1243,102 @@ func init() {
 			return out
 		}})
 }
+
+// COPYUSE — once a ShallowCopy has copied a component into a local, it builds the rest of the copy on that local.
+//
+// `heEvaluator := eval.Evaluator.ShallowCopy()` … `DFTEvaluator: dft.NewEvaluator(params, eval.Evaluator)` wires the
+// copy's sub-evaluator to the *original's* evaluator (and scratch buffers): two copies used concurrently race although
+// each component looks freshly built.
+//
+// Rule: in a ShallowCopy method, when a local L is defined as `recv.F.ShallowCopy()`, the expression `recv.F` does not
+// occur anywhere else in the body (every other use goes through L).
+func scanCopyUse(c *core.Ctx) []ob {
+	var out []ob
+	n := 0
+	c.FuncDecls(func(pk *packages.Package, file *ast.File, fd *ast.FuncDecl) {
+		if fd.Body == nil || fd.Recv == nil || fd.Name.Name != "ShallowCopy" || fileIsTestSupport(c.Program, fd.Pos()) || inExamples(pk) {
+			return
+		}
+		if len(fd.Recv.List) == 0 || len(fd.Recv.List[0].Names) == 0 {
+			return
+		}
+		info := pk.TypesInfo
+		recv := info.Defs[fd.Recv.List[0].Names[0]]
+		if recv == nil {
+			return
+		}
+		fkey := core.FuncKey(pk, fd)
+		// locals defined as recv.F.ShallowCopy()
+		type cp struct {
+			field string
+			def   ast.Node
+			local string
+		}
+		var cps []cp
+		ast.Inspect(fd.Body, func(x ast.Node) bool {
+			as, ok := x.(*ast.AssignStmt)
+			if !ok || len(as.Lhs) != len(as.Rhs) {
+				return true
+			}
+			for i, l := range as.Lhs {
+				id, ok := l.(*ast.Ident)
+				if !ok {
+					continue
+				}
+				call, ok := unparen(as.Rhs[i]).(*ast.CallExpr)
+				if !ok {
+					continue
+				}
+				se, ok := unparen(call.Fun).(*ast.SelectorExpr)
+				if !ok || se.Sel.Name != "ShallowCopy" {
+					continue
+				}
+				fse, ok := unparen(se.X).(*ast.SelectorExpr)
+				if !ok {
+					continue
+				}
+				if rid, ok := unparen(fse.X).(*ast.Ident); ok && info.Uses[rid] == recv {
+					cps = append(cps, cp{fse.Sel.Name, as, id.Name})
+				}
+			}
+			return true
+		})
+		for _, k := range cps {
+			n++
+			key := fmt.Sprintf("COPYUSE:%s#%s", fkey, k.field)
+			var bad ast.Node
+			ast.Inspect(fd.Body, func(x ast.Node) bool {
+				if x == k.def {
+					return false
+				}
+				se, ok := x.(*ast.SelectorExpr)
+				if !ok || se.Sel.Name != k.field || bad != nil {
+					return true
+				}
+				if rid, ok := unparen(se.X).(*ast.Ident); ok && info.Uses[rid] == recv {
+					bad = se
+				}
+				return true
+			})
+			if bad != nil {
+				out = append(out, withProps(violOb("COPYUSE", key, c.Rel(bad.Pos()), fmt.Sprintf("%s copies %s.%s into %s and still uses %s.%s at %s: what is built there belongs to the original, not to the copy", fkey, recv.Name(), k.field, k.local, recv.Name(), k.field, c.Rel(bad.Pos()))), "C10", "C18"))
+			} else {
+				out = append(out, withProps(okOb("COPYUSE", key, c.Rel(k.def.Pos()), "the copied component is the only one used after it has been copied", true), "C10", "C18"))
+			}
+		}
+	})
+	c.Stats["copyuse_sites"] = n
+	return out
+}
+
+func init() {
+	core.Register(&core.Rule{Name: "COPYUSE", Props: []string{"C10", "C18"},
+		Doc: "in a ShallowCopy method, when a local is defined as recv.F.ShallowCopy(), recv.F does not occur anywhere else in the body",
+		Run: func(c *core.Ctx) []ob {
+			out := scanCopyUse(c)
+			for _, o := range control(c, "COPYUSE", scanCopyUse, "(wiredEval).ShallowCopy") {
+				out = append(out, withProps(o, "C10", "C18"))
+			}
+			return out
+		}})
+}
